@@ -202,6 +202,46 @@ lines += ["/-- `assemble_internal` has the shape the model's `assembleInternal` 
           "def operandsTupleShape : Bool := %s" % ("true" if tuple_ok else "false"),
           "def encodeHeadShape : Bool := %s" % ("true" if enc_head_ok else "false"),
           "def assembleTopShape : Bool := %s" % ("true" if top_ok else "false"), ""]
+# ---- src/asm_parser.rs: the numeric meaning of literals — the final `and_then` of `integer()` (an if-chain over `is_hex`, the sign and the magnitude, translated branch by
+# branch), the sign closure, and the shapes of the digit conversions of `integer()` and `register()` (u64 / i64 parses whose overflow is a parse error)
+try:
+    ptxt = " ".join(re.sub(r"//[^\n]*", "", open(os.path.join(os.path.dirname(SRC), "asm_parser.rs")).read()).split())
+    m = re.search(r"\(sign, hex\.or\(dec\)\)\.and_then\(move \|\(s, \(x, is_hex\)\): \(i64, \(u64, bool\)\)\| \{ (.*?) \}\) \}", ptxt)
+    if not m: raise SyntaxError("final and_then of integer()")
+    chain = m.group(1)
+    def expr(e):
+        e = e.strip()
+        if e == "x as i64": return "u64ToI64 x"
+        q = re.fullmatch(r"s\.wrapping_mul\((.*)\)", e)
+        if q: return "wrapI64 (s * %s)" % expr(q.group(1))
+        q = re.fullmatch(r"\((.*)\)\.wrapping_neg\(\)", e)
+        if q: return "wrapI64 (-(%s))" % expr(q.group(1))
+        raise SyntaxError("literal value `%s`" % e)
+    def cnd(c):
+        c = c.strip()
+        if c == "is_hex": return "isHex = true"
+        q = re.fullmatch(r"s == (-?\d+) && x <= i64::MAX as u64( \+ (\d+))?", c)
+        if q: return "s = %s ∧ x ≤ 2 ^ 63 - 1%s" % (q.group(1), (" + " + q.group(3)) if q.group(2) else "")
+        raise SyntaxError("literal condition `%s`" % c)
+    out = []; rest = chain
+    while True:
+        q = re.match(r"(?:else )?if (.*?) \{ Ok\((.*?)\) \} ", rest)
+        if not q: break
+        out.append("  %sif %s then some (%s)" % ("else " if out else "", cnd(q.group(1)), expr(q.group(2)))); rest = rest[q.end():]
+    if not re.fullmatch(r"else \{ Err\(out_of_range\(\)\) \}", rest.strip()): raise SyntaxError("end of the if-chain: " + rest[:40])
+    sign_ok = 'let sign = optional(one_of("-+".chars())).map(|x| match x { Some(\'-\') => -1, _ => 1, });' in ptxt
+    hex_ok = 'let hex = attempt(string("0x").with(many1(hex_digit()))).and_then(move |x: String| { u64::from_str_radix(&x, 16) .map(|v| (v, true)) .map_err(|_| out_of_range()) });' in ptxt
+    dec_ok = 'let dec = many1(digit()) .and_then(move |x: String| x.parse::<u64>().map(|v| (v, false)).map_err(|_| out_of_range()));' in ptxt
+    reg_ok = "attempt(char('r').skip(not_followed_by(letter()))) .with(many1(digit())) .and_then(|x: String| { x.parse::<i64>() .map_err(|_| StreamErrorFor::<I>::message_static_message(\"register out of range\")) })" in ptxt
+    lines += ["/-- the final `and_then` of `integer()`: `s` the sign (-1 or 1), `x` the magnitude (a `u64`), `isHex` how it was written -/",
+              "def integerFinalSrc (s : Int) (x : Nat) (isHex : Bool) : Option Int :="] + out + ["  else none",
+              "/-- the sign closure ('-' gives -1, anything else 1) and the digit conversions (`from_str_radix(.., 16)` / `parse::<u64>` for literals, `parse::<i64>` for register numbers; overflow is a parse error) have the modelled shapes -/",
+              "def signShape : Bool := %s" % ("true" if sign_ok else "false"), "def hexParseShape : Bool := %s" % ("true" if hex_ok else "false"),
+              "def decParseShape : Bool := %s" % ("true" if dec_ok else "false"), "def registerParseShape : Bool := %s" % ("true" if reg_ok else "false"), "def integerFinalSrcOk : Bool := true", ""]
+except Exception as ex:
+    problems.append("asm_parser integer(): %s" % ex)
+    lines += ["def integerFinalSrc (s : Int) (x : Nat) (isHex : Bool) : Option Int := none", "def signShape : Bool := false", "def hexParseShape : Bool := false", "def decParseShape : Bool := false",
+              "def registerParseShape : Bool := false", "def integerFinalSrcOk : Bool := false", ""]
 for p in problems: lines.append("/- not translated: %s -/" % p.replace("-/", "- /"))
 lines += ["end Rbpf.Generated", ""]
 new = "\n".join(lines)
